@@ -285,7 +285,7 @@ def tampered_block(rng, ntx, segwit_ok=True):
 def gen_blocks(ctx, emit):
     rng = ctx.rng
     # headers: exactly 80 bytes, with trailing bytes, truncated
-    for _ in range(ctx.n(40, 2000)):
+    for _ in range(ctx.n(100, 4000)):
         hdr = M.header_bytes(rng.choice([0, 1, 2, 2 ** 32 - 1, rng.randrange(2 ** 32)]), rng.randbytes(32), rng.randbytes(32),
                              rng.choice([0, 2 ** 32 - 1, rng.randrange(2 ** 32)]), rng.randrange(2 ** 32), rng.choice([0, 2 ** 32 - 1, rng.randrange(2 ** 32)]))
         emit("header_rt " + hx(hdr))
@@ -299,7 +299,7 @@ def gen_blocks(ctx, emit):
             emit("block_rt %s %s honest" % (coin, blob.hex()))
             emit("block_rt %s %s tampered" % (coin, M.random_block(rng, n, bad_root=True)[0].hex()))
             emit("block_rt %s %s tampered" % (coin, tampered_block(rng, n).hex()))
-        for _ in range(ctx.n(25, 1500)):
+        for _ in range(ctx.n(80, 4000)):
             n = rng.choice([1, 1, 2, 3, 5, 6, 11, 13])
             kind = rng.randrange(6)
             if kind <= 1:
@@ -342,7 +342,7 @@ def gen(ctx, emit):
     for n in (2, 3, 4, 6):
         h = rh()
         emit("merkle " + show_list([h] * n, hx))
-    for _ in range(ctx.n(60, 3000)):
+    for _ in range(ctx.n(200, 6000)):
         n = rng.choice([rng.randint(1, 40), rng.randint(1, 300)])
         hs = [rh() for _ in range(n)]
         emit("merkle " + show_list(hs, hx))
@@ -366,7 +366,7 @@ def gen(ctx, emit):
             ms = [bool(mask >> i & 1) for i in range(n)]
             emit_proof_cases(emit, rng, txids, ms, corrupt=False, every_position=False)
     # random larger trees
-    for _ in range(ctx.n(120, 6000)):
+    for _ in range(ctx.n(500, 20000)):
         n = rng.choice([rng.randint(1, 70), rng.randint(1, 70), rng.choice([31, 32, 33, 63, 64, 65, 127, 128, 129, 255, 256, 257, 300])])
         txids = [rh() for _ in range(n)]
         p = rng.choice([0.02, 0.1, 0.5, 0.9])
@@ -384,7 +384,7 @@ def gen(ctx, emit):
         flags, hashes, ids, _ = ref_build(txids, ms)
         emit(verify_line(n, hashes, flags, ref_root(txids), "any:duplicate-siblings"))
     # malformed: random flags / counts
-    for _ in range(ctx.n(150, 5000)):
+    for _ in range(ctx.n(600, 20000)):
         total = rng.choice([0, 1, 2, 3, 5, 8, rng.randint(0, 40), 2 ** 32 - 1, 2 ** 31])
         hashes = [rh() for _ in range(rng.randint(0, 6))]
         flags = bytes(rng.randrange(256) for _ in range(rng.randint(0, 3)))
